@@ -60,7 +60,7 @@ def run(tier, seed):
     viol += viol2
     m = vc.merge_rsched(reps)
     # the step function alone, under every delivery order and every legal GVT announcement
-    preps, pm, pviol = hc.proc_part(PID, d, tier)
+    preps, pm, pviol = hc.proc_part(PID, d, tier, part="small")
     viol += pviol
     if not viol:
         for k in ("fossil_releases", "rollbacks", "anti_extracted_processed", "ended_by_time", "ended_by_stop", "committed_events"):
